@@ -397,6 +397,7 @@ func TestVerifSendBatch(t *testing.T) {
 		t.Fatal(err)
 	}
 	rep := &simReport{Extra: map[string]any{}}
+	simOnStall("sb_result.json", rep)
 	defer simWriteReport("sb_result.json", rep)
 	// the core of the scope - every combination of per-call outcomes and servers without cancellation, re-location failure or
 	// a call context of its own - is always run completely; the rest is sampled with a seeded stride
@@ -422,7 +423,7 @@ func TestVerifSendBatch(t *testing.T) {
 	for _, idx := range order {
 		s := scripts[idx]
 		var r sbResult
-		synctest.Test(t, func(t *testing.T) { r = runSendBatch(s) })
+		verifsim.Bubble(t, func(t *testing.T) { r = runSendBatch(s) })
 		ran++
 		desc := fmt.Sprintf("srv=%v out=%v reloc=%v ownCtx=%v cancel=%+v", s.Scr.Srv, s.Scr.Out, s.Scr.Reloc, s.Scr.Own, s.Scr.Cancel)
 		switch {
@@ -495,6 +496,7 @@ func TestVerifC12Reject(t *testing.T) {
 		t.Skip("VERIF_OUT not set")
 	}
 	rep := &simReport{Extra: map[string]any{}}
+	simOnStall("c12r_result.json", rep)
 	defer simWriteReport("c12r_result.json", rep)
 	kinds := []string{"othertable", "duplicate", "skipbatch-get", "scan", "skipbatch-put"}
 	for n := 1; n <= 4; n++ {
@@ -508,7 +510,7 @@ func TestVerifC12Reject(t *testing.T) {
 						continue
 					}
 					name := fmt.Sprintf("n=%d/pos=%d/%s/dupOf=%d", n, pos, kind, dupOf)
-					synctest.Test(t, func(t *testing.T) {
+					verifsim.Bubble(t, func(t *testing.T) {
 						tr := &verifsim.Trace{}
 						cl := verifsim.NewCluster(tr)
 						cl.AddServer("s1")
